@@ -100,7 +100,9 @@ from .astutil import (
     re_identifier,
     FIELDS,
     OPCLS2STR,
+    ARGLIKE_KIND_NAME,
     bistr,
+    arglike_kind,
     is_valid_identifier,
     is_valid_identifier_dotted,
     is_valid_identifier_star,
@@ -3029,6 +3031,7 @@ def _coerce_to__arglikes(
 
     elif codea_cls is _type_params:
         coerced = True
+        kind_max = 0
 
         for a in codea.type_params:
             a_cls = a.__class__
@@ -3039,6 +3042,13 @@ def _coerce_to__arglikes(
                 ast = _coerce_to__arglike_ast_ParamSpec(a, is_FST, options, parse_params)
             elif a_cls is TypeVarTuple:
                 ast, _ = _coerce_to_expr_ast(a, is_FST, options, parse_params, 'expression (arglike)', unmake=False)
+
+            if (kind := arglike_kind(ast)) < 2 and kind_max > kind + 1:  # type params order is freer than arglikes, '**P, *Ts' or '**P, T' is invalid in a call
+                raise _coerce_error('_arglikes', '_type_params',
+                                    f'{ARGLIKE_KIND_NAME[kind]} cannot follow {ARGLIKE_KIND_NAME[kind_max]}')
+
+            if kind > kind_max:
+                kind_max = kind
 
             arglikes.append(ast)
 
